@@ -1,0 +1,29 @@
+//go:build verif
+
+// Contracts (//@ comments, read by /verif/govc) for package server. Built only with -tags verif.
+package server
+
+// =============================================================================================
+// C06 — malformed UPDATEs: the reaction chosen for a decoding / validation error
+// =============================================================================================
+//@ props C06
+
+// from C06: "With revised error handling enabled, a malformed UPDATE gets the strongest reaction any of its
+// errors calls for - attribute discard, treat-as-withdraw ... or session reset ... and with it disabled every
+// malformed UPDATE resets the session" (an AFI/SAFI-disable class error is answered by a session reset)
+//@ func (*fsmHandler).handlingError
+//@   requires m != nil && h != nil && h.fsm != nil && h.fsm.logger != nil
+//@   requires typeOf(e) == (*bgp.MessageError) && e.(*bgp.MessageError) != nil
+//@   ensures old(m.Header.Type) == bgp.BGP_MSG_UPDATE && useRevisedError ==> result == old(e.(*bgp.MessageError).ErrorHandling == bgp.ERROR_HANDLING_AFISAFI_DISABLE ? bgp.ERROR_HANDLING_SESSION_RESET : e.(*bgp.MessageError).ErrorHandling)
+//@   ensures !(old(m.Header.Type) == bgp.BGP_MSG_UPDATE && useRevisedError) ==> result == bgp.ERROR_HANDLING_SESSION_RESET
+
+// from C06: "No route is ever installed or propagated ... lacking a mandatory attribute" and "gets the strongest
+// reaction any of its errors calls for": an UPDATE is only handed on (callback) after it has been validated
+// in this iteration, also when decoding produced an attribute-discard class error (an UPDATE that decoding
+// already turned into a withdrawal installs nothing). The obligation sits at the first step of handing the UPDATE on (AS_PATH reconstruction), where the
+// decode class `handling` is still in scope.
+// Thread-local mode: the loop talks to other goroutines through channels; only this per-iteration protocol
+// obligation is claimed, nothing about the heap.
+//@ func (*fsmHandler).recvMessageloop
+//@   claims at-call
+//@   at-call table.UpdatePathAttrs4ByteAs( requires handling == bgp.ERROR_HANDLING_NONE || handling == bgp.ERROR_HANDLING_ATTRIBUTE_DISCARD ==> called(ValidateUpdateMsg)
